@@ -69,6 +69,7 @@ import PercevalModel.Lemmas.C12Glue
 import PercevalModel.Lemmas.C12Exact
 import PercevalModel.Lemmas.C12Other
 import PercevalModel.Lemmas.C12More
+import PercevalModel.Lemmas.C12Inst
 import PercevalModel.Num.GQ
 import Mathlib.LinearAlgebra.Matrix.Notation
 import Mathlib.LinearAlgebra.Matrix.Block
@@ -1445,5 +1446,138 @@ example : (decomposeExact (⟨fun _ => true, true, false⟩ : Cfg ℂ) bsExactSo
   constructor
   · simp [decomposeExact, cells, runF, stepF, List.range_succ]
   · simp
+
+end PM.C12
+
+
+/-! ### round 8 (model grown): the parameter plumbing between `solve` and the circuit
+
+`Model/C12Inst.lean`: what `decompose_triangle` does with the vector `solve` hands back — a deep copy of the block is
+instantiated by `for i, r in enumerate(res): get_parameters()[0].fix_value(res[i])` (a MOVING index: a fixed parameter
+is no longer listed), every value passes through `Parameter._check_value` (wrap-around of a periodic parameter,
+`ValueError` outside the bounds of a non-periodic one) — and what reaches the minimiser: `bounds` is built from the
+listed parameters (`None` for a periodic one) and shortened together with `x0` and `constraint` at every imposed index.
+So far the theorems above took "the block the solver produced" as given; these say WHICH block the circuit receives. -/
+
+namespace PM.C12
+
+open Solve Inst
+
+/-- the moving index is the positional assignment: `get_parameters()[0].fix_value(res[i])` for `i = 0, 1, …` gives the
+`i`-th listed (non-fixed) parameter the value `res[i]`, whatever fixed parameters sit between them — including every
+error path (a `ValueError` of `_check_value`, the `IndexError` when `res` is longer than the list) -/
+theorem instantiation_is_positional (ps : List Par) (res : List ℚ) : instantiate ps res = assign ps res :=
+  instantiate_eq_assign ps res
+
+/-- with one value per listed parameter (what `solve` returns: `solve_imposed`), the instantiated block has NO free
+parameter left, the same table length, bounds and periodic flags; every parameter that was fixed in the template is
+untouched; the `i`-th listed one holds `_check_value(res[i])`, which is defined -/
+theorem instantiated_block_fully_fixed (ps : List Par) (res : List ℚ) (ps' : List Par)
+    (h : instantiate ps res = some ps') (hlen : res.length = (getParameters ps).length) :
+    getParameters ps' = [] ∧ ps'.length = ps.length ∧ ps'.map Inst.static = ps.map Inst.static ∧
+    List.Forall₂ (fun p q => p.free = false → q = p) ps ps' ∧
+    (atFree ps ps').map (·.val) =
+      List.zipWith (fun p v => checkValue v p.lo p.hi p.periodic) (getParameters ps) res ∧
+    ∀ q ∈ atFree ps ps', q.val.isSome = true := by
+  rw [instantiate_eq_assign] at h
+  obtain ⟨h1, h2, h3, h4⟩ := assign_spec ps res ps' h
+  obtain ⟨g1, g2, g3⟩ := h4 hlen
+  exact ⟨g1, h1, h2, h3, g2, g3⟩
+
+/-- non-vacuity, with a fixed parameter BETWEEN the two free ones (`BS(theta, phi_tr=0.37) // PS(phi)`): -/
+example : instantiate [⟨true, none, some 0, some 4, true⟩, ⟨false, some (37/100), none, none, false⟩,
+      ⟨true, none, some 0, some 2, true⟩] [1, 5] =
+    some [⟨false, some 1, some 0, some 4, true⟩, ⟨false, some (37/100), none, none, false⟩,
+      ⟨false, some 1, some 0, some 2, true⟩] := by decide +kernel
+
+/-- the hypothesis on the length cannot be dropped: a vector that is too short leaves a symbolic parameter in the
+circuit … -/
+example : (instantiate [⟨true, none, none, none, false⟩, ⟨true, none, none, none, false⟩] [1]).map getParameters =
+    some [⟨true, none, none, none, false⟩] := by decide +kernel
+
+/-- … and one that is too long raises (`IndexError`), for every template -/
+theorem instantiation_index_error (ps : List Par) (res : List ℚ) (h : (getParameters ps).length < res.length) :
+    instantiate ps res = none := by
+  rw [instantiate_eq_assign]; exact assign_too_many ps res h
+
+/-- the loop does not raise when every value passes `_check_value` of its own parameter -/
+theorem instantiation_succeeds (ps : List Par) (res : List ℚ)
+    (h : List.Forall₂ (fun p v => (checkValue v p.lo p.hi p.periodic).isSome = true) (getParameters ps) res) :
+    (instantiate ps res).isSome = true := by
+  rw [instantiate_eq_assign]; exact assign_isSome ps res h
+
+/-- `_check_value`: a value inside `[min, max]` is stored as it is (periodic or not) — this is the case of every value
+the bounded minimiser returns for a NON-periodic parameter, whose bounds `decompose_triangle` passes on … -/
+theorem stored_value_in_range (v l h : ℚ) (per : Bool) (hl : l ≤ v) (hh : v ≤ h) (hlt : l < h) :
+    checkValue v (some l) (some h) per = some v := checkValue_in_range per hl hh hlt
+
+/-- … outside them it raises `ValueError` (the whole call to `Circuit.decomposition` raises) … -/
+theorem nonperiodic_out_of_bounds_raises (v l h : ℚ) (hout : v < l ∨ h < v) :
+    checkValue v (some l) (some h) false = none := checkValue_nonperiodic_out hout
+
+/-- … and for a PERIODIC parameter (no bounds reach the minimiser: the value is arbitrary) the stored value differs from
+the solver's by a whole number of periods and lies in `[min, max]`: it never raises.  (The matrix `RI` multiplied into
+`u` is evaluated at the UNWRAPPED value: both agree because the block is periodic in that parameter — property C14.) -/
+theorem stored_value_periodic (v l h : ℚ) (hlt : l < h) :
+    ∃ k : ℤ, checkValue v (some l) (some h) true = some (v + k * (h - l)) ∧
+      l ≤ v + k * (h - l) ∧ v + k * (h - l) ≤ h := by
+  obtain ⟨k, hk, h1, h2⟩ := wrap_spec (v := v) hlt
+  exact ⟨k, by simp [checkValue, hlt, hk], hk ▸ h1, hk ▸ h2⟩
+
+/-- non-vacuity: `phi = 7` in `[0, 2]` is stored as `1` (three periods down); `l < h` is needed by the MODEL (a
+degenerate period is outside it) -/
+example : checkValue 7 (some 0) (some 2) true = some 1 ∧ checkValue 7 (some 2) (some 2) true = none := by
+  decide +kernel
+
+/-- `x0` and `bounds` stay ALIGNED through the recursion of `solve`: whatever the constraint imposes, the minimiser is
+reached with exactly the entries of `x0` and of `bounds` at the positions the constraint leaves free, in order — so
+the `k`-th bound it sees belongs to the `k`-th parameter it optimises, and there are as many as free positions -/
+theorem solve_bounds_stay_aligned {γ δ : Type} (x0 : List γ) (bs : List δ) (cs : List (Option ℚ))
+    (hx : x0.length = cs.length) (hb : bs.length = cs.length) :
+    optArgs x0 bs cs = (freeOf x0 cs, freeOf bs cs) ∧
+    (optArgs x0 bs cs).1.zip (optArgs x0 bs cs).2 = freeOf (x0.zip bs) cs ∧
+    (optArgs x0 bs cs).1.length = (cs.filter (·.isNone)).length ∧
+    (optArgs x0 bs cs).2.length = (cs.filter (·.isNone)).length := by
+  rw [optArgs_eq_freeOf x0 bs cs hx hb]
+  exact ⟨rfl, freeOf_zip x0 bs cs, length_freeOf x0 cs hx, length_freeOf bs cs hb⟩
+
+/-- non-vacuity: the middle parameter imposed -/
+example : optArgs [10, 20, 30] ["a", "b", "c"] [none, some (5 : ℚ), none] = ([10, 30], ["a", "c"]) := by
+  simp [optArgs, firstSome]
+
+/-- `solve` + instantiation: the vector `solve` hands back for a constraint with one entry per listed parameter
+instantiates the block completely (no symbolic parameter is left in the returned circuit) as soon as the loop does not
+raise — for every minimiser that preserves the number of values, every precision, with or without `allow_error` -/
+theorem solved_block_has_no_free_parameter [AddGroup β] [LinearOrder β] (opt : (List ℚ → β) → List ℚ → List ℚ)
+    (hopt : ∀ g y, (opt g y).length = y.length) (ae : Bool) (prec : β) (f : List ℚ → β) (x0 : List ℚ)
+    (cs : List (Option ℚ)) (x : List ℚ) (ps ps' : List Par)
+    (hx0 : x0.length = cs.length) (hcs : cs.length = (getParameters ps).length)
+    (hs : solve opt ae prec f x0 cs = some x) (hi : instantiate ps x = some ps') :
+    getParameters ps' = [] ∧ ∀ q ∈ atFree ps ps', q.val.isSome = true := by
+  have hl := (solve_imposed opt hopt ae prec f x0 cs x hx0 hs).1
+  obtain ⟨h1, _, _, _, _, h6⟩ := instantiated_block_fully_fixed ps x ps' hi (hl.trans hcs)
+  exact ⟨h1, h6⟩
+
+end PM.C12
+
+namespace PM.C12
+
+open Inst
+
+/-- the repaired `Circuit.decomposition` (`U = Matrix(U)` before the test): every object that passes the
+"non symbolic" test is processed as a numeric matrix, so the phase layer can always be read off it -/
+theorem validated_input_is_processed_numerically (c : MatClass) (h : passesSymbolicTest c = true) :
+    workingClass true c = .numeric ∧ phaseLayerReadable (workingClass true c) = true := by
+  cases c <;> simp_all [passesSymbolicTest, workingClass, MatClass.normalise, MatClass.isSymbolic, phaseLayerReadable]
+
+/-- the pinned code tests a converted COPY and then works on the caller's object: a sympy-class matrix of plain numbers
+passes the test and reaches `add_phases` as it is (`AttributeError: 'Float' object has no attribute 'real'`) — the
+witness of the defect `symbolic-class-input-crashes` (fixes/C12-symbolic-class-input.diff) -/
+theorem pinned_code_processes_symbolic_object :
+    ∃ c, passesSymbolicTest c = true ∧ phaseLayerReadable (workingClass false c) = false :=
+  ⟨.symbolicDefined, by decide, by decide⟩
+
+/-- a matrix with free symbols is refused by both versions (the `symbolic` flag of the glue model) -/
+theorem free_symbols_refused : passesSymbolicTest .symbolicFree = false := by decide
 
 end PM.C12
